@@ -474,6 +474,45 @@ def work_later_probe_fault(chunk, st):
     st.sample({'later_probe_fault': [chunk[0][0], chunk[0][1], list(chunk[0][2]), chunk[0][3]]}, cap=3)
 
 
+# ---- the reply that carries a host key never arrives (connection closed, reset or stalled after our KEXDH_INIT; or cut inside the reply):
+# nothing is claimed about a key that was not presented - no size, no fingerprint - and every size / fingerprint shown is a presented key's
+def reply_lost_cases():
+    out = []
+    for keys in (['rsa-sha2-512', 'rsa-sha2-256', 'ssh-ed25519'], ['ssh-rsa', 'ssh-ed25519'], ['ssh-ed25519', 'rsa-sha2-512', 'ssh-rsa'], ['ssh-rsa-cert-v01@openssh.com', 'rsa-sha2-256', 'ssh-ed25519']):
+        for conns in ((1,), (2,), (3,), (1, 2), (1, 2, 3)):
+            for fault in (('trunc_close', 0), ('reset',), ('trunc_stall', 0), ('trunc_close', 7)):
+                for fmt in ('text', 'json'):
+                    out.append((tuple(keys), conns, fault, fmt))
+    return out
+
+
+def work_reply_lost(chunk, st):
+    for keys, conns, fault, fmt in chunk:
+        bits = 2048
+        hk = P.standard_host_keys(list(keys), rsa_bits=bits, ca='rsa', ca_bits=4096)
+        srv = P.Server(label='rl', kex=['curve25519-sha256'], key=list(keys), host_keys=hk, banner=b'SSH-2.0-OpenSSH_9.6')
+        res = H.audit(srv, opts=['-n', '--skip-rate-test'] + (['-j'] if fmt == 'json' else []), faults={('rl', c, 2): fault for c in conns})
+        root = ('reply-lost', keys, conns, fault, fmt)
+        st.execution(res.world, outcome=('reply-lost', res.status, fmt), root=root, nontrivial=root)
+        d = {'host_keys': list(keys), 'reply_lost_on_connections': list(conns), 'fault': list(fault), 'fmt': fmt, 'status': res.status}
+        if res.status not in (0, 2, 3) or res.hang or res.exc:
+            st.violation('reply-lost:audit-failed', dict(d, stdout=res.stdout[-200:]))
+            continue
+        for name in keys:
+            e = key_entry(res, fmt, name)
+            if e is None:
+                st.violation('reply-lost:key-not-reported', dict(d, name=name))
+                continue
+            true = 256 if 'ed25519' in name else bits
+            if e['size'] not in (None, true) or ('rsa' in name and e['size'] is None and size_notes(e['notes'])):
+                st.violation('reply-lost:size-of-a-key-never-presented' if e['size'] in (0,) else 'reply-lost:size-differs', dict(d, name=name, reported=e['size'], true=true))
+        plain = {n: wire.serialize(hk[n]) for n in keys if '-cert-' not in n and n in hk}
+        for sig, what in fingerprint_problems(res, fmt, plain):
+            if sig != 'fingerprint-missing':
+                st.violation('reply-lost:%s' % sig, dict(d, what=what))
+    st.sample({'reply_lost': [list(chunk[0][0]), list(chunk[0][1]), list(chunk[0][2])]}, cap=4)
+
+
 # ---- two audits in flight on two worker threads: every placement of one (quick) or two (thorough) thread switches at the receives
 CONC_ARCHS = ['CERTSMALLCA', 'CERTBIGCA', 'RSA1024', 'RSA4096', 'CLEAN', 'GEX2048OPENSSH']
 
@@ -610,6 +649,7 @@ def run(tier, seed):
     par.pmap(work_multi, multi_cases(), stats=st)
     par.pmap(work_concurrent, concurrent_cases(tier), stats=st, chunk=1)
     par.pmap(work_later_probe_fault, later_probe_fault_cases(), stats=st, chunk=4)
+    par.pmap(work_reply_lost, reply_lost_cases(), stats=st, chunk=4)
     par.pmap(work_cert_family, cert_family_cases(), stats=st, chunk=4)
     check_other_kex(st)
     check_reply_f(st)
